@@ -221,36 +221,47 @@ theorem update_frame (mk : List Props → List Bytes × List Value) (a : UpdArgs
       rw [he] at this ⊢
       exact this
 
-/-- the update can only fail by panicking on a tile whose tags point outside the tables (the
-    `.unwrap()` in `filter_map_properties`); it never returns `Err` after a successful decode -/
-theorem update_never_err (mk : List Props → List Bytes × List Value) (a : UpdArgs) (fmt : Value → Bytes)
-    (m : DataMap) (t : Tile) : updateTile mk a fmt m t ≠ .err := by
+theorem decodePairs_no_panic (keys : List Bytes) (vals : List Value) :
+    ∀ (tags : List Nat) (acc : Props), decodePairs keys vals tags acc ≠ .panic := by
+  intro tags acc
+  induction tags, acc using decodePairs.induct keys vals with
+  | case1 acc => simp [decodePairs]
+  | case2 _ acc => simp [decodePairs]
+  | case3 k v t acc kk vv hv hk ih => simpa [decodePairs, hk, hv] using ih
+  | case4 k v t acc hno =>
+    simp only [decodePairs]
+    first | simp | (split <;> simp)
+
+/-- the update never panics (since `fix:` e60b9a05 a tag id outside the tables is an `Err`): whatever the
+    decoded tile, the data and the flags, the result is a tile or an error -/
+theorem update_never_panics (mk : List Props → List Bytes × List Value) (a : UpdArgs) (fmt : Value → Bytes)
+    (m : DataMap) (t : Tile) : updateTile mk a fmt m t ≠ .panic := by
   have hf : ∀ (keys : List Bytes) (vals : List Value) (f : Props → Option Props) (fs : List Feature),
-      fmpDecode keys vals f fs ≠ .err := by
+      fmpDecode keys vals f fs ≠ .panic := by
     intro keys vals f fs
     induction fs with
     | nil => simp [fmpDecode]
     | cons x xs ih =>
       simp only [fmpDecode]
-      cases decodeTags keys vals x.tags with
+      cases hd : decodeTags keys vals x.tags with
       | ok p =>
         simp only
         cases hr : fmpDecode keys vals f xs with
         | ok rest => cases f p <;> simp
-        | err => exact absurd hr ih
-        | panic => simp
+        | err => simp
+        | panic => exact absurd hr ih
       | err => simp
-      | panic => simp
-  have hl : ∀ l : Layer, (if l.name = a.layer then filterMapProps mk (joinFn a fmt m) l else .ok l) ≠ .err := by
+      | panic => exact absurd hd (decodePairs_no_panic keys vals x.tags [])
+  have hl : ∀ l : Layer, (if l.name = a.layer then filterMapProps mk (joinFn a fmt m) l else .ok l) ≠ .panic := by
     intro l
     split
     · unfold filterMapProps
       cases hd : fmpDecode l.keys l.vals (joinFn a fmt m) l.features with
       | ok fps => simp
-      | err => exact absurd hd (hf _ _ _ _)
-      | panic => simp
+      | err => simp
+      | panic => exact absurd hd (hf _ _ _ _)
     · simp
-  have hm' : ∀ ls : List Layer, mapLayers (fun l => if l.name = a.layer then filterMapProps mk (joinFn a fmt m) l else .ok l) ls ≠ .err := by
+  have hm' : ∀ ls : List Layer, mapLayers (fun l => if l.name = a.layer then filterMapProps mk (joinFn a fmt m) l else .ok l) ls ≠ .panic := by
     intro ls
     induction ls with
     | nil => simp [mapLayers]
@@ -261,15 +272,15 @@ theorem update_never_err (mk : List Props → List Bytes × List Value) (a : Upd
         simp only
         cases hxs : mapLayers (fun l => if l.name = a.layer then filterMapProps mk (joinFn a fmt m) l else .ok l) xs with
         | ok r => simp
-        | err => exact absurd hxs ih
-        | panic => simp
-      | err => exact absurd hx (hl x)
-      | panic => simp
+        | err => simp
+        | panic => exact absurd hxs ih
+      | err => simp
+      | panic => exact absurd hx (hl x)
   unfold updateTile
   cases hq : mapLayers (fun l => if l.name = a.layer then filterMapProps mk (joinFn a fmt m) l else .ok l) t.layers with
   | ok r => simp
-  | err => exact absurd hq (hm' _)
-  | panic => simp
+  | err => simp
+  | panic => exact absurd hq (hm' _)
 
 -- non-vacuity: a one-feature layer, id "a1" matched, merge
 example :
